@@ -1,6 +1,7 @@
 import CandidModel.Wire
 import CandidModel.Native
 import CandidModel.Proofs.NativeLocal
+import CandidModel.Proofs.NativeStep
 /-
   C08 — Native decoding agrees with untyped decoding at the same Candid type.
   The model side of this property is the specification decoder at `T::ty()`; native decoding of every
@@ -78,20 +79,20 @@ theorem bounded_vector_accepts_exactly_within_limits (f : Flags → St → NR) (
 /-- **the bulk reader of primitive vectors reads what the element-wise path reads** (restated from
 `Proofs/NativeLocal`): for `Vec<T>`, `[T; n]`, `BoundedVec<…, T>` with `T` one of the eleven fixed-width primitives,
 expected and wire element type both that primitive, nothing metered, the announced bytes present. -/
-theorem primitive_vector_shortcut_is_sound (env : Env) (tl : Nat) (renv : REnv) (k : Nat) (vis : SeqVisitor)
+theorem primitive_vector_shortcut_is_sound (mk : String → NR) (env : Env) (tl : Nat) (renv : REnv) (k : Nat) (vis : SeqVisitor)
     (p : Prim) (sz : Nat) (hs : primSize p = some sz) (fl : Flags) (n : Nat) (s2 : St) (hu : Unmetered s2)
     (hfit : n * (3 + sz) ≤ usizeMax) (hbytes : n * sz ≤ s2.input.length) :
     (bulkElems renv vis (.prim p) fl p n s2).map (fun q => (q.1, Flags.clear)) =
-      genericElems (deN env tl renv (k + 1)) vis (.prim p) fl (.prim p) (.prim p) n s2 :=
-  bulk_reads_what_the_generic_path_reads env tl renv k vis p sz hs fl n s2 hu hfit hbytes
+      genericElems (deN mk env tl renv (k + 1)) vis (.prim p) fl (.prim p) (.prim p) n s2 :=
+  bulk_reads_what_the_generic_path_reads mk env tl renv k vis p sz hs fl n s2 hu hfit hbytes
 
 /-- … and it rejects nothing the element-wise path accepts: a vector read element by element had its announced bytes -/
-theorem primitive_vector_shortcut_is_complete (env : Env) (tl : Nat) (renv : REnv) (k : Nat)
+theorem primitive_vector_shortcut_is_complete (mk : String → NR) (env : Env) (tl : Nat) (renv : REnv) (k : Nat)
     (p : Prim) (sz : Nat) (hs : primSize p = some sz) (fl : Flags) (n : Nat) (s2 : St) (hu : Unmetered s2)
     (vs : List Val) (f : Flags) (s' : St)
-    (h : genericElems (deN env tl renv (k + 1)) .all (.prim p) fl (.prim p) (.prim p) n s2 = .ok (vs, f) s') :
+    (h : genericElems (deN mk env tl renv (k + 1)) .all (.prim p) fl (.prim p) (.prim p) n s2 = .ok (vs, f) s') :
     n * sz ≤ s2.input.length :=
-  generic_success_needs_the_announced_bytes env tl renv k p sz hs fl n s2 hu vs f s' h
+  generic_success_needs_the_announced_bytes mk env tl renv k p sz hs fl n s2 hu vs f s' h
 
 /-- the bulk reader is chosen only for identical fixed-width primitives on both sides -/
 theorem primitive_vector_shortcut_only_at_identical_primitives (e w : Ty) (p : Prim) (h : exactPrim e w = some p) :
@@ -113,25 +114,25 @@ theorem bignum_shortcut_only_at_its_three_pairs (ee wire : Ty) (b : Big) : bigOf
     (b = .nat ∧ ee = .prim .nat ∧ wire = .prim .nat) ∨ (b = .int ∧ ee = .prim .int ∧ wire = .prim .int) ∨
     (b = .natAsInt ∧ ee = .prim .int ∧ wire = .prim .nat) := bigOf_eq_some ee wire b
 
-theorem bignum_vector_shortcut_is_sound (env : Env) (tl : Nat) (renv : REnv) (k : Nat) (vis : SeqVisitor)
+theorem bignum_vector_shortcut_is_sound (mk : String → NR) (env : Env) (tl : Nat) (renv : REnv) (k : Nat) (vis : SeqVisitor)
     (t : RTy) (b : Big) (wire ee : Ty) (hc : BigCase t b wire ee) (tx : Bool) (n : Nat) (s2 : St) (hu : Unmetered s2)
     (hfit : n * 3 ≤ usizeMax) :
-    bigElems (deN env tl renv (k + 1)) vis t ⟨none, tx⟩ b wire ee n s2 =
-      genericElems (deN env tl renv (k + 1)) vis t ⟨none, tx⟩ wire ee n s2 :=
-  big_shortcut_reads_what_the_generic_path_reads env tl renv k vis t b wire ee hc tx n s2 hu hfit
+    bigElems (deN mk env tl renv (k + 1)) vis t ⟨none, tx⟩ b wire ee n s2 =
+      genericElems (deN mk env tl renv (k + 1)) vis t ⟨none, tx⟩ wire ee n s2 :=
+  big_shortcut_reads_what_the_generic_path_reads mk env tl renv k vis t b wire ee hc tx n s2 hu hfit
 
 /-- the leaf readers under a flag (map values, map keys): same values, same remaining input, same quotas as the
 checked readers at the types the flag stands for -/
-theorem flagged_leaf_readers_are_sound (env : Env) (fuel : Nat) (tx : Bool) (b : Option Big) (st : St) :
-    (nNat env fuel ⟨some .nat, tx⟩ (.prim .nat) (.prim .nat) st).map Prod.fst =
-      (nNat env fuel ⟨none, tx⟩ (.prim .nat) (.prim .nat) st).map Prod.fst ∧
-    (nInt env fuel ⟨some .int, tx⟩ (.prim .int) (.prim .int) st).map Prod.fst =
-      (nInt env fuel ⟨none, tx⟩ (.prim .int) (.prim .int) st).map Prod.fst ∧
-    (nInt env fuel ⟨some .natAsInt, tx⟩ (.prim .nat) (.prim .int) st).map Prod.fst =
-      (nInt env fuel ⟨none, tx⟩ (.prim .nat) (.prim .int) st).map Prod.fst ∧
+theorem flagged_leaf_readers_are_sound (mk : String → NR) (env : Env) (fuel : Nat) (tx : Bool) (b : Option Big) (st : St) :
+    (nNat mk env fuel ⟨some .nat, tx⟩ (.prim .nat) (.prim .nat) st).map Prod.fst =
+      (nNat mk env fuel ⟨none, tx⟩ (.prim .nat) (.prim .nat) st).map Prod.fst ∧
+    (nInt mk env fuel ⟨some .int, tx⟩ (.prim .int) (.prim .int) st).map Prod.fst =
+      (nInt mk env fuel ⟨none, tx⟩ (.prim .int) (.prim .int) st).map Prod.fst ∧
+    (nInt mk env fuel ⟨some .natAsInt, tx⟩ (.prim .nat) (.prim .int) st).map Prod.fst =
+      (nInt mk env fuel ⟨none, tx⟩ (.prim .nat) (.prim .int) st).map Prod.fst ∧
     (nText env fuel ⟨b, true⟩ (.prim .text) (.prim .text) st).map Prod.fst =
       (nText env fuel ⟨b, false⟩ (.prim .text) (.prim .text) st).map Prod.fst :=
-  ⟨nat_shortcut_sound env fuel tx st, int_shortcut_sound env fuel tx st, nat_as_int_shortcut_sound env fuel tx st,
+  ⟨nat_shortcut_sound mk env fuel tx st, int_shortcut_sound mk env fuel tx st, nat_as_int_shortcut_sound mk env fuel tx st,
    text_shortcut_sound env fuel b st⟩
 
 /-- non-vacuity: a bulk read of three `nat16` with nothing metered -/
@@ -139,5 +140,35 @@ example : (bulkElems [] .all (.prim .nat16) Flags.clear .nat16 3
     { input := [1, 0, 2, 0, 3, 0, 9], gamma := [], dq := none, sq := none, untyped := false }).map (fun q => q.1) =
     .ok [.nat16 1, .nat16 2, .nat16 3] { input := [9], gamma := [], dq := none, sq := none, untyped := false } := by
   rfl
+
+
+/-- **no value is read at the wrong type, no shortcut flag outlives its position.**  The native mirror marks two
+situations instead of modelling them: a visitor of a Rust type meeting an expected type that is not that type's Candid
+type, and a skip entered while a shortcut flag is set.  Whenever the expected type is the Candid type of the Rust type
+down to the depth explored (`agree`, evaluated by the driver on every request of the correspondence run), neither is
+reached: for every wire type, every state and every depth the outcome is the same whatever a marked situation would
+answer.  In particular `Nat` / `Int` / `String` read under a flag only at the literal types the flag stands for, and
+every compound leaves the flags cleared. -/
+theorem marked_situations_are_never_reached (mk mk' : String → NR) (env : Env) (tl : Nat) (renv : REnv) (fuel : Nat)
+    (t : RTy) (w e : Ty) (st : St) (ha : agree env renv fuel t e = true) :
+    deN mk env tl renv fuel t Flags.clear w e st = deN mk' env tl renv fuel t Flags.clear w e st :=
+  (deN_good mk mk' env tl renv fuel t Flags.clear w e st ha (FlagsFit.clear w e)).1
+
+/-- … and what a top-level call returns carries cleared flags -/
+theorem top_level_call_returns_cleared_flags (mk : String → NR) (env : Env) (tl : Nat) (renv : REnv) (fuel : Nat)
+    (t : RTy) (w e : Ty) (st : St) (ha : agree env renv fuel t e = true) (v : Val) (fl' : Flags) (s : St)
+    (h : deN mk env tl renv fuel t Flags.clear w e st = .ok (v, fl') s) : fl' = Flags.clear := by
+  rcases (deN_good mk mk env tl renv fuel t Flags.clear w e st ha (FlagsFit.clear w e)).2 v fl' s h with h1 | h1 <;> exact h1
+
+/-- the same under a flag, provided the flag fits the position (this is the induction hypothesis the vector and map
+loops rely on) -/
+theorem marked_situations_are_never_reached_under_flags (mk mk' : String → NR) (env : Env) (tl : Nat) (renv : REnv)
+    (fuel : Nat) (t : RTy) (fl : Flags) (w e : Ty) (st : St) (ha : agree env renv fuel t e = true) (hf : FlagsFit fl w e) :
+    deN mk env tl renv fuel t fl w e st = deN mk' env tl renv fuel t fl w e st :=
+  (deN_good mk mk' env tl renv fuel t fl w e st ha hf).1
+
+/-- non-vacuity: `BTreeMap<String, Vec<Nat>>` against its Candid type, to depth 6 -/
+example : agree [] [] 6 (.map (.prim .text) (.seq .nat))
+    (.vec (.record (.cons (.id 0) (.prim .text) (.cons (.id 1) (.vec (.prim .nat)) .nil)))) = true := by decide
 
 end Candid.Props.C08
